@@ -1178,6 +1178,10 @@ class PathSim:
                 if sig is not None:
                     out.append((None, s, sig))
                     continue
+                rf = self._record_field(b, e.attr)
+                if rf is not None:
+                    out.append((rf, s, None))
+                    continue
                 sym = ast.Attribute(value=b, attr=e.attr, ctx=ast.Load())
                 psite = self.cg.site_of(frame[0], e) if isinstance(getattr(e, 'ctx', None), ast.Load) else None
                 if psite is not None and psite.prop:
@@ -1203,6 +1207,10 @@ class PathSim:
                     sym._ep = s.ep
                     out.append((sym, s, None))
             return out
+        if isinstance(e, ast.Subscript) and not isinstance(e.slice, ast.Slice) and isinstance(getattr(e, 'ctx', None), ast.Load):
+            table = self._new_module_table(f, e.value)
+            if table is not None:
+                return self._dict_dispatch(table, e.slice, 'KeyError', st, frame, e)
         if isinstance(e, ast.Subscript):
             out = []
             for b, s, sig in self.ev(e.value, st, frame):
@@ -1330,7 +1338,45 @@ class PathSim:
                 return v
             if _is_constant_expr(v):
                 return v            # e.g. ord('A'), 26 * 26, frozenset('abc'): the same term the inline spelling would give
+            if isinstance(v, ast.Tuple) and 0 < len(v.elts) <= 16 and all(self._is_table_entry(f, x) for x in v.elts):
+                return v            # an (ordered) dispatch table: rows of constants and names of functions / classes / lambdas
         return None
+
+    def _is_table_entry(self, f, x, depth=0):
+        if depth > 2:
+            return False
+        if isinstance(x, ast.Constant):
+            return True
+        if isinstance(x, ast.Lambda):
+            return True
+        if isinstance(x, (ast.Name, ast.Attribute)):
+            r = self.repo.resolve_expr_static(f.module, x)
+            return bool(r) and r[0] in ('func', 'class', 'classattr')
+        if isinstance(x, ast.Tuple):
+            return all(self._is_table_entry(f, y, depth + 1) for y in x.elts)
+        return False
+
+    def _new_module_table(self, f, e):
+        """the display of a module-level dict that did not exist on the pinned tree and is only ever read: {constant key: entry}"""
+        if not isinstance(e, ast.Name) or e.id in f.params():
+            return None
+        r = self.repo.lookup(f.module, e.id)
+        if not (r and r[0] == 'var' and isinstance(r[1], ast.Dict) and is_new_module_var(r[3], e.id)):
+            return None
+        d = r[1]
+        if not (0 < len(d.keys) <= 16) or any(k is None or not isinstance(k, ast.Constant) for k in d.keys):
+            return None
+        if not all(self._is_table_entry(r[3].body_func, v) or self._is_record_ctor(r[3].body_func, v) for v in d.values):
+            return None
+        d._module = r[3]
+        return d
+
+    def _is_record_ctor(self, f, v):
+        if isinstance(v, ast.Call) and isinstance(v.func, (ast.Name, ast.Attribute)):
+            r = self.repo.resolve_expr_static(f.module, v.func)
+            return bool(r) and r[0] == 'class' and r[1].record_fields() is not None and all(self._is_table_entry(f, a) for a in v.args) \
+                and all(k.arg is not None and self._is_table_entry(f, k.value) for k in v.keywords)
+        return False
 
     def _is_pure_call(self, e, site, fn=None):
         fn = fn if fn is not None else e.func
@@ -1340,9 +1386,88 @@ class PathSim:
             return True
         return False
 
+    def _dict_dispatch(self, table, key_expr, default, st, frame, node):
+        """D[k] / D.get(k[, d]) on a read-only module table with constant keys: one path per key (decided like the comparison `k == key` an
+        if/elif chain would make) plus the no-key path"""
+        out = []
+        pending = [st]
+        for kc, vc in zip(table.keys, table.values):
+            nxt = []
+            for s in pending:
+                for v, s2, sig in self.cond(ast.copy_location(ast.Compare(left=key_expr, ops=[ast.Eq()], comparators=[kc]), node), s, frame):
+                    if sig is not None:
+                        out.append((None, s2, sig))
+                    elif v:
+                        mod_ = getattr(table, '_module', None)
+                        # the entry is an expression of the module body (a record constructor call, a name, a lambda)
+                        out.extend(self.ev(vc, s2, (mod_.body_func, 'mod_%s' % mod_.name, frame[2]) if mod_ is not None else frame))
+                    else:
+                        nxt.append(s2)
+            pending = nxt
+        for s in pending:
+            if default is None:
+                out.append((ast.Constant(value=None), s, None))
+            elif default == 'KeyError':
+                s.events.append(Event('raise', node, frame[0], text='raise KeyError', extra='KeyError', ep=s.ep, loops=s.loops))
+                out.append((None, s, ('raise', 'KeyError', node, [])))
+            else:
+                out.extend(self.ev(default, s, frame))
+        return out
+
     def ev_call(self, e, st, frame):
         f = frame[0]
         out = []
+        # a lookup in a read-only dispatch table
+        if isinstance(e.func, ast.Attribute) and e.func.attr == 'get' and 1 <= len(e.args) <= 2 and not e.keywords:
+            table = self._new_module_table(f, e.func.value)
+            if table is not None:
+                return self._dict_dispatch(table, e.args[0], e.args[1] if len(e.args) == 2 else None, st, frame, e)
+        # a call of what a lookup / a local / a table row yields: when that is a lambda, its body with the arguments put in
+        rec_field_call = False
+        if isinstance(e.func, ast.Attribute) and isinstance(e.func.value, ast.Name):
+            held_ = st.env.get((frame[1], e.func.value.id))
+            names_ = getattr(held_, '_record', None)
+            rec_field_call = names_ is not None and e.func.attr in names_       # rec.field(args): the callable stored in a record
+        if rec_field_call or not isinstance(e.func, (ast.Name, ast.Attribute)) or (isinstance(e.func, ast.Name) and isinstance(st.env.get((frame[1], e.func.id)), ast.Lambda)):
+            res = []
+            handled = True
+            for fs, s, sig in self.ev(e.func, st, frame):
+                if sig is not None:
+                    res.append((None, s, sig))
+                elif isinstance(fs, ast.Lambda) and not e.keywords and not any(isinstance(a, ast.Starred) for a in e.args) \
+                        and len(fs.args.args) == len(e.args) and not fs.args.vararg and not fs.args.kwarg and not fs.args.kwonlyargs:
+                    rs = [([], s, None)]
+                    for a in e.args:
+                        nrs = []
+                        for acc_, s2, sg in rs:
+                            if sg is not None:
+                                nrs.append((acc_, s2, sg))
+                            else:
+                                for asym, s3, sg3 in self.ev(a, s2, frame):
+                                    nrs.append((acc_ + [asym], s3, sg3))
+                        rs = nrs
+                    for acc_, s2, sg in rs:
+                        if sg is not None:
+                            res.append((None, s2, sg))
+                            continue
+                        self._fresh += 1
+                        nf = (f, 'lam%d_%s' % (self._fresh, frame[1]), frame[2])
+                        for k_, v_ in list(s2.env.items()):
+                            if k_[0] == frame[1]:
+                                s2.env[(nf[1], k_[1])] = v_       # the lambda closes over the enclosing function's locals
+                        for pa, av in zip(fs.args.args, acc_):
+                            s2.env[(nf[1], pa.arg)] = av
+                        res.extend(self.ev(fs.body, s2, nf))
+                elif isinstance(fs, (ast.Name, ast.Attribute)) and (rec_field_call or isinstance(e.func, (ast.Subscript, ast.Call, ast.IfExp))):
+                    # the callee expression evaluated to a named function / method on this path: call that
+                    e2 = ast.copy_location(ast.Call(func=fs, args=e.args, keywords=e.keywords), e)
+                    e2._parent = getattr(e, '_parent', None)
+                    res.extend(self.ev_call(e2, s, frame))
+                else:
+                    handled = False
+                    break
+            if handled:
+                return res
         site = self.cg.site_of(f, e)
         # evaluate callee receiver, then args
         fn = e.func
@@ -1411,6 +1536,24 @@ class PathSim:
                         acc.append(kw.pop(ps_[len(acc)]))
                 sym = ast.Call(func=fsym, args=acc,
                                keywords=[ast.keyword(arg=(None if k == '**' else k), value=v) for k, v in kw.items()])
+                if site is not None and site.kind == 'ctor' and site.ext is not None and not any(isinstance(a_, ast.Starred) for a_ in acc) and '**' not in kw:
+                    # a plain record (NamedTuple / dataclass without __init__): Rec(a, y=b) IS the tuple of its fields, in field order
+                    flds = site.ext.record_fields()
+                    if flds is not None and len(acc) <= len(flds) and all(k in [n_ for n_, _ in flds] for k in kw):
+                        vals = list(acc) + [None] * (len(flds) - len(acc))
+                        okr = True
+                        for i_, (n_, dflt) in enumerate(flds):
+                            if n_ in kw:
+                                okr = okr and vals[i_] is None
+                                vals[i_] = kw[n_]
+                            elif vals[i_] is None:
+                                vals[i_] = dflt
+                        if okr and all(v_ is not None for v_ in vals):
+                            rec = ast.Tuple(elts=vals, ctx=ast.Load())
+                            rec._record = [n_ for n_, _ in flds]
+                            rec._ep = s2.ep
+                            out.append((rec, s2, None))
+                            continue
                 if isinstance(fn, ast.Name) and fn.id == 'len' and len(acc) == 1 and not kw and self.repo.lookup(f.module, 'len') is None:
                     known = _literal_elts(acc[0]) if not isinstance(acc[0], (ast.Tuple,)) or True else None
                     if known is not None and (isinstance(acc[0], (ast.List, ast.Tuple)) or hasattr(acc[0], '_elts') or isinstance(acc[0], ast.Name)):
@@ -1432,6 +1575,8 @@ class PathSim:
                 # a local that holds a fresh list display grows with what is appended to it (parts = [a]; parts.append(b) -> [a, b])
                 if isinstance(recv, ast.Name) and isinstance(fn, ast.Attribute) and fn.attr in ('append', 'extend') and len(acc) == 1 and not kw:
                     cur_ = s2.env.get((frame[1], recv.id))
+                    if not isinstance(cur_, ast.List) and hasattr(cur_, '_elts') and len(cur_._elts) <= 8:
+                        cur_ = ast.List(elts=list(cur_._elts), ctx=ast.Load())      # the value of an expanded comprehension, known element by element
                     if isinstance(cur_, ast.List):
                         grown = None
                         if fn.attr == 'append':
@@ -1652,6 +1797,34 @@ class PathSim:
             else:
                 out.extend(self._decide(sym, e, s, frame))
         return out
+
+    def _record_field(self, b, attr):
+        """`.attr` of a value known to be a plain record: the field itself when the record was built on this path, the positional
+        subscript when it is what a function annotated with the record class returned (f(..).matched is f(..)[1])"""
+        names = getattr(b, '_record', None)
+        if names is None and isinstance(b, ast.Name) and getattr(b, '_origin', None) is not None:
+            names = getattr(b._origin, '_record', None)
+            b = b._origin if names is not None else b
+        if names is not None and isinstance(b, ast.Tuple) and attr in names and len(b.elts) == len(names):
+            return b.elts[names.index(attr)]
+        if isinstance(b, ast.Call) and getattr(b, '_site', None) is not None:
+            site = b._site
+            flds = None
+            for g in self.cg.targets(site):
+                if g.is_module_body or g.node.returns is None:
+                    return None
+                t = self.repo.ann_type(g.module, g.node.returns, g.cls)
+                if not t or t[0] != 'inst':
+                    return None
+                f2 = t[1].record_fields()
+                if f2 is None or (flds is not None and [n_ for n_, _ in f2] != flds):
+                    return None
+                flds = [n_ for n_, _ in f2]
+            if flds and attr in flds:
+                sub = ast.Subscript(value=b, slice=ast.Constant(value=flds.index(attr)), ctx=ast.Load())
+                sub._ep = getattr(b, '_ep', 0)
+                return sub
+        return None
 
     def _iter_known_from_comp(self, it, st, frame):
         """is `it` a local that holds the value of an expanded comprehension (known element by element on this path)?"""
@@ -1922,6 +2095,15 @@ class PathSim:
             if norm(r) < norm(l):
                 l, r = r, l
             # x == True / x == False on a truthy atom stay as they are
+        if isinstance(op, (ast.Is, ast.Eq)) and isinstance(l, ast.Attribute) and isinstance(r, ast.Attribute):
+            # two members of one class named in full (enum members, class-level constants): the same name is the same object, two names of an
+            # Enum are different objects
+            rl, rr = self.repo.resolve_expr_static(frame[0].module, l), self.repo.resolve_expr_static(frame[0].module, r)
+            if rl and rr and rl[0] == 'classattr' and rr[0] == 'classattr' and rl[1] is rr[1]:
+                if rl[2] == rr[2]:
+                    return [(not neg, st, None)]
+                if any(str(b).split('.')[-1] in ('Enum', 'IntEnum', 'Flag', 'IntFlag') for b in rl[1].ext_bases()):
+                    return [(neg, st, None)]
         if isinstance(op, ast.Is) and isinstance(r, ast.Constant) and r.value is None and (_never_none(l) or self._typed_never_none(l)):
             return [(neg, st, None)]        # the result of str.strip(), str(), a display, a call annotated with a non-Optional class ... is never None
         sym = ast.Compare(left=l, ops=[op], comparators=[r])
